@@ -815,7 +815,7 @@ def _tree_rows(ctx, rows, with_blanks):
         for g in variants:
             got = P.parse_tree(ctx, g, models)
             n += 1
-            ctx.expect(got == want, anchor, f'tree of {g!r}' if g != formula else f'tree of {formula}',
+            ctx.expect(got == P.refify(want), anchor, f'tree of {g!r}' if g != formula else f'tree of {formula}',
                        f'{g!r} is parsed as {got!r}, expected {want!r}: Excel applies the tighter-binding operator first (unary minus, then %, '
                        'then ^, then * /, then + -, then &, then the comparisons), equal levels from left to right, parentheses first, and blanks '
                        'around operators do not matter')
